@@ -19,12 +19,13 @@ import TapkeeVerif.Model.DijkstraFib
   in : `oracle N=… lists=… w=… lm=… F=<rows> L=<rows>`      (observations of the implementation)
   out: `sp=ok|reject diag=ok|bad direct=ok|bad|na lm=ok|bad|na`
 
-  in : `iso N=8 nb=<lists> w=<distance matrix> pre=<matrix seen by the eigensolver> [d=2 ev=<eigenvalues> Y=<embedding>]`
+  in : `iso N=8 nb=<lists> w=<distance matrix> pre=<matrix seen by the eigensolver> [d=2 ev=<eigenvalues> Y=<embedding>]
+        [approx=1 : compare `pre` within 2⁻³⁰·scale (`pre=ok~`) instead of exactly] [thrown=1]`
   out: `graph=ok|ERR:oob reach=finite|unreachable pre=ok|differ@i,j:model:impl|thrown|na cmds=ok|differ@…|na sym=0|1
         y=ok|FAIL-…|inconclusive|na`   (`reach`: does the model predict finite geodesics on the observed lists?)
        `y`: certificate that the returned embedding is the classical-MDS solution of the reference geodesics,
        decided in exact rational arithmetic on the dyadic values the implementation returned, tolerance 2⁻³⁰·scale:
-       `YᵀY = diag(max λ 0)`, `B Y = Y diag λ` for `B = −½ J S J` computed from the Floyd–Warshall geodesics, and
+       `YᵀY = diag(max λ 0)`, `B Y = Y diag λ` for `B = −½ J S J` computed from the Floyd–Warshall geodesics of the observed lists, and
        (Sylvester inertia of `B − σ·1`) no eigenvalue of `B` above the returned ones.
 -/
 open TapkeeVerif TapkeeVerif.Util TapkeeVerif.Dijkstra
@@ -181,9 +182,10 @@ def answerOracle (fs : List (String × String)) : String :=
   | _, _, _ => "bad-case"
 
 /-- first position where two square matrices differ -/
-def firstDiff {n : Nat} (A B : Mat n n Rat) : Option (Nat × Nat × Rat × Rat) :=
+def firstDiff {n : Nat} (A B : Mat n n Rat) (tol : Rat := 0) : Option (Nat × Nat × Rat × Rat) :=
   (List.finRange n).findSome? fun i => (List.finRange n).findSome? fun j =>
-    if A i j = B i j then none else some (i.1, j.1, A i j, B i j)
+    let e := A i j - B i j
+    if (if e < 0 then -e else e) ≤ tol then none else some (i.1, j.1, A i j, B i j)
 
 def absR (x : Rat) : Rat := if x < 0 then -x else x
 
@@ -242,24 +244,35 @@ def answerIso (fs : List (String × String)) : String :=
         let D := DMat.ofFn (n := N) (m := N) fun i j => (G.get i.1 j.1).getD (0 : Rat)
         let preModel := DMat.ofFn (IsomapPre.isomapPre D.get)
         let preImpl := DMat.ofFn (n := N) (m := N) fun i j => mkW pre i.1 j.1
+        -- `approx=1` (declared by the generator for weights whose squares are not exact in double): the matrices are
+        -- compared within 2⁻³⁰·scale instead of exactly
+        let approx := (field? fs "approx") == some "1"
+        let tolPre : Rat := if approx then εrel * Cert.maxK (Cert.maxAbs preModel.get) 1 else 0
         let sizeOk := pre.size == N && pre.all (·.size == N)
         let a := if !sizeOk then "differ@size" else
-          match firstDiff preModel.get preImpl.get with
-          | none => "ok"
+          match firstDiff preModel.get preImpl.get tolPre with
+          | none => if approx then "ok~" else "ok"
           | some (i, j, m, x) => s!"differ@{i},{j}:{showDy m}:{showDy x}"
         -- what the dense solver decomposes vs classical MDS of the averaged squared geodesics
-        let S := DMat.ofFn (IsomapPre.avgSquares D.get)
+        -- reference geodesics for the property's oracle and the certificate: Floyd–Warshall (`DijkstraSpec.fw`, the
+        -- oracle's own definition), independent of the Dijkstra model used for `preModel`
+        let Gref : Tab Rat := match P.k? with
+          | some k => fw P k
+          | none => G
+        let Dref := DMat.ofFn (n := N) (m := N) fun i j => (Gref.get i.1 j.1).getD (0 : Rat)
+        let refOk := (List.range N).all fun i => (List.range N).all fun j => Gref.get i j == G.get i j
+        let S := DMat.ofFn (IsomapPre.avgSquares Dref.get)
         let J := DMat.ofFn (IsomapPre.centering (K := Rat) (n := N))
         let JS := DMat.ofFn (Mat.mul J.get S.get)
         let want := DMat.ofFn (n := N) (m := N) fun i j =>
           (-(1 / 2 : Rat)) * Mat.mul JS.get J.get i j
         let is := DMat.ofFn (IsomapPre.denseSolverInput preImpl.get)
-        let b := match firstDiff is.get want.get with
+        let b := match firstDiff is.get want.get tolPre with
           | none => "ok"
           | some (i, j, m, x) => s!"differ@{i},{j}:{showDy m}:{showDy x}"
         let sym := (List.range N).all fun i => (List.range N).all fun j => G.get i j == G.get j i
         let y := embeddingCert fs N want
-        s!"graph=ok reach=finite pre={a} cmds={b} sym={if sym then 1 else 0} y={y}"
+        s!"graph=ok reach=finite pre={a} cmds={b} sym={if sym then 1 else 0} y={y} ref={if refOk then "ok" else "DIFFERS"}"
   | some N, some nb, some W, none =>
     -- no matrix observed (the implementation threw before / inside the eigensolver): judge the graph only
     let P : Problem Rat := { N := N, nbrs := nb, w := mkW W }
